@@ -167,6 +167,7 @@ func main() {
 			sem <- struct{}{}
 			defer func() { <-sem }()
 			results[i] = runJob(prog, jobs[i], *trace, *logDir)
+			fmt.Fprintf(os.Stderr, "job %s: %d paths %v in %.1fs\n", jobs[i].ID, results[i].Paths, results[i].PathsByKind, results[i].WallS)
 		}(i)
 	}
 	wg.Wait()
